@@ -25,9 +25,9 @@ theorem orIf_eq (b : Bool) (m x : Nat) : orIf b m x = x ||| (if b = true then m 
   cases b <;> simp [orIf]
 
 theorem bitsOfHeader_orIf (h : Header) :
-    bitsOfHeader h = orIf h.cd 16 (orIf h.ad 32 (orIf h.response 32768 (orIf h.authoritative 1024
+    bitsOfHeader h = orIf h.cd 16 (orIf h.ad 32 (orIf h.z 64 (orIf h.response 32768 (orIf h.authoritative 1024
       (orIf h.truncated 512 (orIf h.rd 256 (orIf h.ra 128
-        ((h.opcode * 2048 % 65536) ||| (h.rcode % 65536)))))))) := rfl
+        ((h.opcode * 2048 % 65536) ||| (h.rcode % 65536))))))))) := rfl
 
 /-- `opcode<<11 | rcode` for 4-bit operands is their positional sum -/
 theorem base_bits (op rc : Nat) (hop : op < 16) (hrc : rc < 16) :
@@ -42,7 +42,7 @@ theorem bitsOfHeader_eq (h : Header) (hop : h.opcode < 16) (hrc : h.rcode < 16) 
     bitsOfHeader h = (h.opcode * 2048 + h.rcode) ||| (if h.ra = true then 128 else 0)
       ||| (if h.rd = true then 256 else 0) ||| (if h.truncated = true then 512 else 0)
       ||| (if h.authoritative = true then 1024 else 0) ||| (if h.response = true then 32768 else 0)
-      ||| (if h.ad = true then 32 else 0) ||| (if h.cd = true then 16 else 0) := by
+      ||| (if h.z = true then 64 else 0) ||| (if h.ad = true then 32 else 0) ||| (if h.cd = true then 16 else 0) := by
   rw [bitsOfHeader_orIf]
   simp only [orIf_eq, base_bits _ _ hop hrc]
 
@@ -51,7 +51,7 @@ theorem bitsOfHeader_lt (h : Header) (hop : h.opcode < 16) (hrc : h.rcode < 16) 
   have e : (65536 : Nat) = 2 ^ 16 := by decide
   rw [e]
   refine Nat.or_lt_two_pow (Nat.or_lt_two_pow (Nat.or_lt_two_pow (Nat.or_lt_two_pow (Nat.or_lt_two_pow
-    (Nat.or_lt_two_pow (Nat.or_lt_two_pow ?_ ?_) ?_) ?_) ?_) ?_) ?_) ?_
+    (Nat.or_lt_two_pow (Nat.or_lt_two_pow (Nat.or_lt_two_pow ?_ ?_) ?_) ?_) ?_) ?_) ?_) ?_) ?_
   · omega
   all_goals (split <;> omega)
 
@@ -70,6 +70,7 @@ theorem headerOfBits_bitsOfHeader (h : Header) (hop : h.opcode < 16) (hrc : h.rc
   have f9 : fld 9 1 (h.opcode * 2048 + h.rcode) = 0 := by simp only [fld]; omega
   have f8 : fld 8 1 (h.opcode * 2048 + h.rcode) = 0 := by simp only [fld]; omega
   have f7 : fld 7 1 (h.opcode * 2048 + h.rcode) = 0 := by simp only [fld]; omega
+  have f6 : fld 6 1 (h.opcode * 2048 + h.rcode) = 0 := by simp only [fld]; omega
   have f5 : fld 5 1 (h.opcode * 2048 + h.rcode) = 0 := by simp only [fld]; omega
   have f4 : fld 4 1 (h.opcode * 2048 + h.rcode) = 0 := by simp only [fld]; omega
   have fop : fld 11 4 (h.opcode * 2048 + h.rcode) = h.opcode := by simp only [fld]; omega
@@ -78,9 +79,37 @@ theorem headerOfBits_bitsOfHeader (h : Header) (hop : h.opcode < 16) (hrc : h.rc
   have hrc' : bitsOfHeader h % 16 = fld 0 4 (bitsOfHeader h) := by simp [fld]
   unfold headerOfBits
   rw [hop', hrc']
-  simp only [testBit_fld, hb, fld_or, fld_ite, f15, f10, f9, f8, f7, f5, f4, fop, frc]
+  simp only [testBit_fld, hb, fld_or, fld_ite, f15, f10, f9, f8, f7, f6, f5, f4, fop, frc]
   cases h with
-  | mk id qr op aa tc rd ra ad cd rc =>
+  | mk id qr op aa tc rd ra ad cd rc z =>
     simp [fld]
 
-end MosVerif.Wire
+/-! ### the other direction: no bit of an accepted flag word is lost -/
+
+theorem bit_eq_of_decide_eq {x y : Nat} (h : decide (x % 2 = 1) = decide (y % 2 = 1)) : x % 2 = y % 2 := by
+  by_cases hx : x % 2 = 1 <;> by_cases hy : y % 2 = 1 <;> simp [hx, hy] at h <;> omega
+
+/-- `header.header()` is injective on 16-bit flag words: every one of the 16 bits lands in a field -/
+theorem headerOfBits_inj (i j x y : Nat) (hx : x < 65536) (hy : y < 65536)
+    (h : headerOfBits i x = headerOfBits j y) : x = y := by
+  simp only [headerOfBits, testBit, Header.mk.injEq] at h
+  obtain ⟨_, h15, hop, h10, h9, h8, h7, h5, h4, hrc, h6⟩ := h
+  have b15 := bit_eq_of_decide_eq h15
+  have b10 := bit_eq_of_decide_eq h10
+  have b9 := bit_eq_of_decide_eq h9
+  have b8 := bit_eq_of_decide_eq h8
+  have b7 := bit_eq_of_decide_eq h7
+  have b6 := bit_eq_of_decide_eq h6
+  have b5 := bit_eq_of_decide_eq h5
+  have b4 := bit_eq_of_decide_eq h4
+  omega
+
+/-- ★ decode-then-encode of the flag word is the identity on ALL 16 bits (including the reserved
+    bit Z): no header bit of an accepted message is lost. -/
+theorem bitsOfHeader_headerOfBits (id bits : Nat) (hb : bits < 65536) :
+    bitsOfHeader (headerOfBits id bits) = bits := by
+  have hop : (headerOfBits id bits).opcode < 16 := by simp only [headerOfBits]; omega
+  have hrc : (headerOfBits id bits).rcode < 16 := by simp only [headerOfBits]; omega
+  have hlt := bitsOfHeader_lt _ hop hrc
+  have hrt := headerOfBits_bitsOfHeader (headerOfBits id bits) hop hrc
+  exact headerOfBits_inj _ _ _ _ hlt hb hrt
